@@ -107,8 +107,14 @@ func genCase(rt *rapid.T) *Case {
 			}
 		}
 	}
-	// parser: a subset of tokens, possibly none of a mode
-	perm := rapid.Permutation(toks).Draw(rt, "perm")
+	// parser: a subset of tokens and @external names, possibly none of a mode
+	all := append([]string(nil), toks...)
+	for _, d := range c.Decls {
+		if d.Kind == "external" {
+			all = append(all, strings.Fields(d.Name)...)
+		}
+	}
+	perm := rapid.Permutation(all).Draw(rt, "perm")
 	c.Parser = perm[:ri(rt, 1, len(perm), "np")]
 	c.PFile = ri(rt, 0, c.NFiles-1, "pfile")
 	return c
@@ -439,10 +445,10 @@ func evalCompiled(run *ev.Run, cases []*Case) ([]string, error) {
 func TestC19(t *testing.T) {
 	run := ev.Start("C19")
 	defer run.Finish(t)
-	run.Rule = "specifications of 1-3 files (read in file-name order) with 2-14 declarations: tokens (names of varied legal shapes), fragments (some with @emit of any token), @external lines with 1-3 names, spread over the default mode and 0-3 named modes placed between other declarations; every token/fragment has a unique literal spelling; the parser (in any file) uses a random subset of the tokens as alternatives of the start rule; " +
+	run.Rule = "specifications of 1-3 files (read in file-name order) with 2-14 declarations: tokens (names of varied legal shapes), fragments (some with @emit of any token), @external lines with 1-3 names, spread over the default mode and 0-3 named modes placed between other declarations; every token/fragment has a unique literal spelling; the parser (in any file) uses a random subset of the tokens and @external names as alternatives of the start rule; " +
 		"oracle: constants of base.gen.go (evaluated with go/types) are exactly EOF=0, ERROR=1 and the declared names numbered 2.. in text order; the _TokenToString switch maps each to its name and everything else to \"???\" (a sample is compiled and called for every value in [-1,n+1]); the decoded lexer table of the declaring mode accepts each unique spelling with the constant of its token / @emit target; the decoded _actions row of state 0 is keyed by exactly the constants of the parser's tokens and the follow-up states reduce on key 0 (EOF); " +
 		"non-trivial = spec with a token inside a mode, an @external before a token, an @emit and >=2 files; distinct by file texts"
-	run.Assumptions = []string{"files are processed in file-name order (filepath.Glob)", "@external names cannot be referenced from the parser section (lox rejects that), so the parser only uses lexer tokens"}
+	run.Assumptions = []string{"files are processed in file-name order (filepath.Glob)", "the parser may refer to lexer tokens and to @external names alike"}
 	report := func(c *Case, d string) {
 		c.Detail = d
 		run.Violation(d, c)
